@@ -157,7 +157,7 @@ def olc_side(rule, what='the olc_db instantiation'):
 
 KEYBUF = ('unodb::detail::key_buffer',)
 ORD_RANGE = R(lambda cfg: find.ord1(cfg, mode='range'))
-SEQ_POINT = [R(point.noeff1), R(point.keyeq1), R(find.find1), ORD_RANGE, R(slot.slot1), R(point.pair1), R(point.copy1), R(lambda cfg: point.desc1(cfg, which='point')), R(prefix.pfx1), R(lambda cfg: prefix.pfx2(cfg, which='tree')), R(prefix.pfx3), R(prefix.pfx4), R(lambda cfg: point.type1(cfg, which='point')), R(lambda cfg: nodes.mut1(cfg, parts=('count', 'clear'))), R(nodes.idx1)]
+SEQ_POINT = [R(point.noeff1), R(point.keyeq1), R(find.find1), ORD_RANGE, R(slot.slot1), R(point.pair1), R(point.copy1), R(lambda cfg: point.desc1(cfg, which='point')), R(prefix.pfx1), R(lambda cfg: prefix.pfx2(cfg, which='tree')), R(prefix.pfx3), R(prefix.pfx4), R(prefix.pfx5), R(lambda cfg: point.type1(cfg, which='point')), R(lambda cfg: nodes.mut1(cfg, parts=('count', 'clear'))), R(nodes.idx1)]
 SEQ_SCAN = [R(seq.cmp3), R(enc.cmp_shape), R(enum1.enum1), R(iterrules.iter2), R(lambda cfg: point.desc1(cfg, which='seek')), R(iterrules.vis1), R(lambda cfg: point.type1(cfg, which='scan')), R(iterrules.stack1), R(iterrules.iter6), R(find.ord1), R(point.pair1), R(lambda cfg: prefix.pfx2(cfg, which='snapshot'))]
 
 
@@ -223,7 +223,7 @@ PROPERTIES['C01'] = {
     'configs': three,
     'extra_configs': lambda tier: [extract.flip(B, 'sse41'), extract.TSAN],
     'multi_rules': [R(lambda ctx, tier: simd_axis_sse(ctx, tier, fns=(slot.slot1, find.find1, lambda cfg: find.ord1(cfg, mode='range')))), R(tsan_axis)],
-    'rules': [R(point.noeff1), R(point.keyeq1), R(point.leaf1), R(point.leaf2), R(point.leaf3), R(point.root1), R(point.split1), R(point.pair1), R(point.copy1), R(lambda cfg: point.desc1(cfg, which='point')), R(find.find1), ORD_RANGE, R(slot.slot1), R(prefix.pfx1), R(lambda cfg: prefix.pfx2(cfg, which='tree')), R(prefix.pfx3), R(prefix.pfx4), R(lambda cfg: point.type1(cfg, which='point')), R(lambda cfg: nodes.mut1(cfg, parts=('count', 'clear'))), R(nodes.idx1), R(mutex.mx2), R(mutex.mx6),
+    'rules': [R(point.noeff1), R(point.keyeq1), R(point.leaf1), R(point.leaf2), R(point.leaf3), R(point.root1), R(point.split1), R(point.pair1), R(point.copy1), R(lambda cfg: point.desc1(cfg, which='point')), R(find.find1), ORD_RANGE, R(slot.slot1), R(prefix.pfx1), R(lambda cfg: prefix.pfx2(cfg, which='tree')), R(prefix.pfx3), R(prefix.pfx4), R(prefix.pfx5), R(lambda cfg: point.type1(cfg, which='point')), R(lambda cfg: nodes.mut1(cfg, parts=('count', 'clear'))), R(nodes.idx1), R(mutex.mx2), R(mutex.mx6),
               R(qsbr.q_free_paths), R(qsbr.q_rotation), R(qsbr.q_barriers), R(lambda cfg: qsbr.q_orphans(cfg, parts=('7', '9'))), R(qsbr.q_tagging), R(qsbr.q_last_out), R(qsbr.q_register_epoch), R(qsbr.q_wrap), R(qstate.qs1), R(qsbr.q_cas),
               advisory(R(lambda cfg: iterrules.sib1_point(cfg, accounting=False))), R(lambda cfg: olcrules.lock6(cfg, kinds=('leaf',))), R(olcrules.lock6b)],
     'technique': 'static analysis: path-sensitive effect flow with callee summaries (result/effect correlation), control-dependence rules (full-key comparison guards), writer/reader expression agreement, abstract interpretation of the node search and key-prefix arithmetic in byte-vector / lane-wise three-valued domains with exhaustively enumerated lengths and counts, sibling differencing db vs olc_db',
@@ -235,7 +235,7 @@ PROPERTIES['C01'] = {
                    'FIND-1 find_child of each node class returns exactly the child stored for the key byte: I4 / I16 by lane-wise three-valued evaluation of the SSE search with child count and match position enumerated and stale slots free, I48 / I256 by term comparison; SLOT-1 I48 files a new child in the first null slot of its pointer array (lane-wise evaluation of the SSE4.2 / AVX2 / scalar search, first null slot enumerated 0..47; FIND-1 / ORD-1 / SLOT-1 are evaluated in the configuration without AVX2 as well - the SSE4.2 branches are dead code in the baseline build; SAN-tsan: FIND-1 is additionally evaluated on facts extracted with -fsanitize=thread, where olc_inode_16::find_child has a scalar body of its own under UNODB_DETAIL_THREAD_SANITIZER); ORD-1 (range form) the insert position of the dense classes lies in 0 .. child count for every node content - no live slot is overwritten; that it is the rank of the new byte (sortedness) matters to ordered enumeration only and is decided under C02 / C09; PAIR-1 every function of the dense classes writes the key array and the child array in lock-step (same target and source slots), so slot i of one always describes slot i of the other. '
                    'DESC-1 the descent of get / insert / remove / seek compares each node prefix with the shifted working copy of the key, shifts it by the prefix length, selects the child by its first byte and shifts by one, in this order, the tracked depth moving in step; COPY-1 the grow / shrink initialisers walk the slot arrays of their source node from slot 0 to the array size; '
                    'SPLIT-1 node splits dispatch on the bytes at the split position (leaf split: k1[depth+L] / shifted_k2[L]; prefix split: prefix[len] read before the cut by len+1, key[depth+len]); CAP-1 / CAP-2 the interval obligations "longest common prefix of two distinct keys <= key_prefix_capacity" at the leaf split and "merged prefix <= capacity" at the collapse hold for 64-bit keys and FAIL for byte-string keys - two genuine defects of the pinned tree, listed in known_findings.json and printed as KNOWN-FINDING (replays triage/d1_long_prefix.cpp, triage/d1b_collapse_overflow.cpp). '
-                   'MUT-1 effect summaries of the per-class mutators: add_to_nonfull stores (count it was given) + 1 into children_count exactly once on every path, remove stores (old count) - 1, the sparse classes clear the slot they free (I48: child_indexes[i] = empty_child and the pointer slot nulled, I256: children[i] = nullptr); IDX-1 std::array subscripts under counting loops stay inside the slot arrays (constant bounds evaluated, child-count bounds must be strict). TYPE-1 a tagged node pointer is reinterpreted as a leaf only where its type tag was tested to be LEAF and as an inner node only where it was tested not to be (control dependence on the tag test, through locals and out-parameters holding the tag). PFX-1 key_prefix::cut / prepend are the specified byte permutations for every combination of lengths and every content of the stale bytes; PFX-2 shared_len is min(first differing byte, clamp); PFX-4 key_prefix(len, source), the prefix of the new parent of a key-prefix split, is the first len BYTES of the source prefix (byte-vector evaluation of the member initialiser, all length pairs); PFX-3 make_u64, which builds the prefix of the inner node replacing a split leaf, reads the existing key from the split depth (k1.subspan(depth) reaches get_u64); UNUSED-1 no span / string-view narrowing (subspan, first, last, substr) has its result discarded. "Identically for the mutex index": a call of mutex_db returns with the mutex free unless it is a successful get (MX-2 lock handed out exactly on a hit, MX-6 only scope-bound guards) - otherwise the next call issued by the same thread never returns. The last clause of the property for the OLC index - a value view stays readable until the caller\'s next quiescent state - rests on QSBR never freeing early, so the QSBR safety generators Q-1,2,3,4,5,7,9,10,11,12,14,17, QS-1 (described under C05) are checked here as well: crossing the orphan lists, for instance, frees a removed leaf one epoch too soon under a reader that still holds its view. '
+                   'MUT-1 effect summaries of the per-class mutators: add_to_nonfull stores (count it was given) + 1 into children_count exactly once on every path, remove stores (old count) - 1, the sparse classes clear the slot they free (I48: child_indexes[i] = empty_child and the pointer slot nulled, I256: children[i] = nullptr); IDX-1 std::array subscripts under counting loops stay inside the slot arrays (constant bounds evaluated, child-count bounds must be strict). TYPE-1 a tagged node pointer is reinterpreted as a leaf only where its type tag was tested to be LEAF and as an inner node only where it was tested not to be (control dependence on the tag test, through locals and out-parameters holding the tag). PFX-1 key_prefix::cut / prepend are the specified byte permutations for every combination of lengths and every content of the stale bytes; PFX-2 shared_len is min(first differing byte, clamp); PFX-4 key_prefix(len, source), the prefix of the new parent of a key-prefix split, is the first len BYTES of the source prefix (byte-vector evaluation of the member initialiser, all length pairs); PFX-3 make_u64, which builds the prefix of the inner node replacing a split leaf, reads the existing key from the split depth (k1.subspan(depth) reaches get_u64); PFX-5 get_u64(key_view), the word every prefix comparison starts from, copies min(view size, 8) bytes (length bounded by the size of the same view): a key or key suffix shorter than eight bytes is legal and must not be read past its end; UNUSED-1 no span / string-view narrowing (subspan, first, last, substr) has its result discarded. "Identically for the mutex index": a call of mutex_db returns with the mutex free unless it is a successful get (MX-2 lock handed out exactly on a hit, MX-6 only scope-bound guards) - otherwise the next call issued by the same thread never returns. The last clause of the property for the OLC index - a value view stays readable until the caller\'s next quiescent state - rests on QSBR never freeing early, so the QSBR safety generators Q-1,2,3,4,5,7,9,10,11,12,14,17, QS-1 (described under C05) are checked here as well: crossing the orphan lists, for instance, frees a removed leaf one epoch too soon under a reader that still holds its view. '
                    'SIB-1p (ADVISORY only - differencing two sibling implementations fires on a behaviour-preserving rewrite of one of them, so its reports go into the evidence notes and never into the verdict; the absolute rules above decide) db and olc_db take the same algorithmic decisions (child lookup, prefix comparison, key shifts, leaf match, node creation by class, helper calls; statistics events projected away - they are C10) on every path of get / insert / remove and of the add / remove helpers of every node class.',
     'decides': 'result/effect correlation; full-key-comparison guards; leaf layout agreement and immutability; per-node lookup, insert position and slot pairing; split dispatch bytes; key-prefix arithmetic; db/olc_db algorithm agreement',
     'does_not_decide': 'the map behaviour as a theorem over all operation histories and key sets (that needs an inductive tree invariant - functional verification, outside static analysis); the iterator-style copy loops of the I4-from-I16 shrink beyond PAIR-1',
